@@ -38,6 +38,19 @@ CHECKS = {
    note="Trusted: aware datetimes compare by instant, naive-vs-aware ordering raises TypeError (cross-checked natively); UTC property "
         "descriptors return None or an aware UTC datetime; tzinfo is None iff floating; comprehension rule for Alarms.active.",
    technique="contract-based deductive verification: AST->z3 VCs (pyvc) over integer instants, lemma over contracts; bounded stand-in"),
+ "C14": dict(
+   category="proof", design_ref="DESIGN.md section 8 C14",
+   text="Alarms._add, _repeat (generator, REPEAT an unconstrained integer via the uniform-body loop rule), add_alarm, _alarm_time, the three "
+        "list builders and `times` are symbolically executed; proved: anchor + TRIGGER with the date/midnight rule, first then REPEAT times "
+        "spaced by DURATION exactly when both are set, classification absolute / start (RELATED START or absent, case-insensitive) / end, "
+        "each list is the in-order concatenation of the per-alarm sequences wrapped in AlarmTime objects of that alarm, times = end ++ "
+        "start ++ absolute, ComponentStartMissing / ComponentEndMissing exactly when the anchor is missing and such an alarm exists, and "
+        "that no computing function writes to the Alarms object. Callers see _add/_repeat/_alarm_time through the contracts proved for "
+        "them. A grid of real Event/Todo objects (API-built and re-parsed) is a labelled bounded stand-in.",
+   note="Trusted: date arithmetic facts, to_datetime = local midnight, normalize_pytz as an instant-preserving uninterpreted map, Alarm "
+        "descriptor contracts (C16), list builders checked for 0/1/2 alarms + frame (comprehension rule), local time zone unset in the "
+        "deductive part; start/end anchors come from Event/Todo.start/end (C16).",
+   technique="contract-based deductive verification: AST->z3 VCs (pyvc) with segment sequences and a uniform-body loop rule; modular callee contracts; bounded stand-in"),
 }
 NA_REASON = "check not built yet (build round in progress; DESIGN.md section 8 describes the planned contracts)"
 
